@@ -19,20 +19,7 @@ ASSUMPTIONS = ["the reference semantics shares value-level operations (Ops/Func/
 EXHAUSTIVE = {"quick": False, "thorough": False}
 
 
-def session_for(prog, inputs, q, tron):
-    calls = ["R5000"]
-    calls += [sess.E(l) for l in prog]
-    if tron:
-        calls += [sess.E("TRON"), "R5000"]
-    calls += [sess.E("RUN"), "R%d" % q]
-    for r in inputs:
-        calls.append("A%d:%s" % (q, sess.hx(r)))
-    return sess.session(calls)
-
-
-def sem_for(prog, inputs, tron):
-    return "sem %s %d %s" % (",".join(sess.hx(l) for l in prog), 1 if tron else 0,
-                             ",".join(sess.hx(r) for r in inputs) if inputs else "-")
+import semcheck
 
 
 CORPUS = [
@@ -55,65 +42,16 @@ def gen(tier, rng):
         progs.append(gen_prog.generate(rng))
     for prog, inputs in progs:
         tron = rng.random() < 0.25
-        key = "\n".join(prog)
-        cases.append(Case(session_for(prog, inputs, 5000, tron), sig=key, tag="run-q5000", meta=("run", key, tron)))
-        q = rng.choice([1, 2, 3, 7, 64])
-        cases.append(Case(session_for(prog, inputs, q, tron), sig=key, tag="run-small-q", meta=("runq", key, tron)))
-        cases.append(Case(sem_for(prog, inputs, tron), sig=key, tag="sem", side="model", meta=("sem", key, tron)))
+        cases.extend(semcheck.cases_for(prog, inputs, rng, tron=tron, quanta=(5000, rng.choice([1, 2, 3, 7, 64]))))
     return cases
 
 
-def run_part(r, tron):
-    ev = transcript.split_events(r)
-    skip = 2 if tron else 1
-    for i, e in enumerate(ev):
-        if e == "S":
-            skip -= 1
-            if skip == 0:
-                return ev[i + 1:]
-    return []
-
-
-def monitor(case, r):
-    if r is None:
-        return None
-    if "PANIC" in r or "HANG" in r or "CRASH" in r:
-        return "crash: program\n%s\nanswers %s" % (case.sig, r[-60:])
-    return None
-
-
+monitor = semcheck.crash_monitor
 STATS = {}
 
 
 def cross_monitor(cases, impl, model):
-    fails = []
-    stats = {"undefined": 0, "fuel": 0, "compared": 0}
-    sem = {}
-    for i, c in enumerate(cases):
-        if c.meta and c.meta[0] == "sem":
-            sem[c.meta[1]] = model[i]
-    for i, c in enumerate(cases):
-        if not c.meta or c.meta[0] not in ("run", "runq"):
-            continue
-        want = sem.get(c.meta[1])
-        if want is None or impl[i] is None:
-            continue
-        if want.endswith("H:UNDEF") or want == "?":
-            stats["undefined"] += 1
-            continue
-        if want.endswith("H:FUEL"):
-            stats["fuel"] += 1
-            continue
-        got = transcript.canon_run(run_part(impl[i], c.meta[2]))
-        if got.endswith("H:FUEL"):
-            stats["fuel"] += 1
-            continue
-        stats["compared"] += 1
-        if got != want:
-            fails.append((i, "semantics: the run of\n%s\n  gives    %s\n  required %s" % (
-                c.sig, sess.decode_events(got)[:400], sess.decode_events(want)[:400])))
-    STATS.update(stats)
-    return fails
+    return semcheck.cross_monitor(cases, impl, model, STATS)
 
 
 def nontrivial(case, r):
